@@ -2007,6 +2007,67 @@ fn do_case(out: &mut Out, dbg: &mut Option<std::fs::File>, fam: &str, c: &Case) 
     }
 }
 
+/// Assumption check: the reference answers `skip` where the specification is ambiguous; a generator
+/// that mostly lands there silently tests nothing. The compiled reference (`model_C15`, built by
+/// bin/check before the harness runs) is asked for every generated request; per operator the numbers of
+/// cases / skipped / reference-error answers go to stats.json (`cases:<Op>`, `ref_skip:<Op>`,
+/// `ref_err:<Op>`) and an operator with more than 50 % skipped cases is reported as a failed assumption.
+fn skip_rates(out: &mut Out, dir: &str, reqs: &[(&'static str, String)]) {
+    use std::io::Write;
+    let verif = std::env::var("VERIF_DIR").unwrap_or_else(|_| "/verif".into());
+    let exe = format!("{verif}/lean/.lake/build/bin/model_C15");
+    if !std::path::Path::new(&exe).exists() {
+        out.note("skip rates unavailable: model_C15 not built");
+        return;
+    }
+    let tmp = format!("{dir}/skipcheck_req.txt");
+    {
+        let mut f = std::io::BufWriter::new(std::fs::File::create(&tmp).unwrap());
+        for (_, r) in reqs {
+            writeln!(f, "{r}").unwrap();
+        }
+    }
+    let res = std::process::Command::new(&exe).stdin(std::fs::File::open(&tmp).unwrap()).output();
+    let _ = std::fs::remove_file(&tmp);
+    let Ok(res) = res else {
+        out.note("skip rates unavailable: model_C15 could not be run");
+        return;
+    };
+    let text = String::from_utf8_lossy(&res.stdout);
+    let answers: Vec<&str> = text.lines().collect();
+    if answers.len() != reqs.len() {
+        out.note("skip rates unavailable: model_C15 answered a different number of lines");
+        return;
+    }
+    let mut per: std::collections::BTreeMap<&str, (u64, u64, u64)> = Default::default();
+    for ((op, _), a) in reqs.iter().zip(&answers) {
+        let e = per.entry(op).or_insert((0, 0, 0));
+        e.0 += 1;
+        if *a == "skip" {
+            e.1 += 1;
+        } else if *a == "err" {
+            e.2 += 1;
+        }
+    }
+    for (op, (n, sk, er)) in &per {
+        for _ in 0..*sk {
+            out.bucket(&format!("ref_skip:{op}"));
+        }
+        for _ in 0..*er {
+            out.bucket(&format!("ref_err:{op}"));
+        }
+        out.note(&format!("{op}: {n} cases, {sk} skipped by the reference ({:.1}%), {er} reference errors", 100.0 * *sk as f64 / *n as f64));
+        if *sk * 2 > *n {
+            out.case(
+                &format!("# assumption skip-rate {op}"),
+                "skip",
+                Some(&format!("assumption violated: {sk} of {n} generated {op} cases are answered `skip` by the reference (> 50 %): the operator is effectively untested")),
+                false,
+            );
+        }
+    }
+}
+
 fn main() {
     let args = hcommon::parse_args();
     hcommon::quiet_panics();
@@ -2023,6 +2084,7 @@ fn main() {
     let mut dbg = std::env::var_os("C15_DEBUG").map(|_| std::fs::File::create(format!("{}/dbg.txt", args.out)).unwrap());
     let total: u64 = GENS.iter().map(|g| g.2).sum();
     let n_cases = if args.thorough { 400_000 } else { 40_000 };
+    let mut all_reqs: Vec<(&'static str, String)> = Vec::with_capacity(n_cases);
     for _ in 0..n_cases {
         let mut pickv = rng.below(total);
         let mut chosen = &GENS[0];
@@ -2035,8 +2097,10 @@ fn main() {
         }
         let mut c = (chosen.1)(&mut rng);
         c.optimize = rng.chance(3, 4);
+        all_reqs.push((c.op, c.request()));
         do_case(&mut out, &mut dbg, chosen.0, &c);
     }
+    skip_rates(&mut out, &args.out, &all_reqs);
     out.note("single-operator ONNX models through ModelOptions::with_all_ops().load + Model::run; integer/bool operators only");
     out.finish("rten output (shape, int32 representation, elements) == Lean ONNX reference; independent structural oracle per operator family");
 }
